@@ -51,6 +51,9 @@ CHECKS = {
  'C15': dict(level='exploration', technique='metamorphic runtime monitor: str vs bytes vs TextSlice windows of hostile buffers, canonical outcomes compared after the coordinate shift the statement prescribes',
              text='Every generated text (accepted and rejected, with newlines in kept/ignored/filtered terminals) is parsed as str, as bytes with use_bytes=True, as a complete TextSlice and as windows of larger buffers whose neighbours would extend the first/last token or put the window mid-line; trees with all token coordinates and meta, and exception class/position, must agree after shifting by the window start.',
              note='ASCII only. Context-sensitive regexps (\\b, look-behind, ^, $) are a separate class judged against finding F-C15-1; dynamic lexers refuse slices (documented).', ref='4 C15'),
+ 'C16': dict(level='exploration', technique='differential runtime monitor: embedded vs post transformation with generated pure transformers; four traversal classes compared on copies of the same tree with call-log checker (once per node, children first)',
+             text='For generated LALR grammars with every shaping feature a pure transformer is generated per grammar (callbacks on random rules, aliases, template names and named terminals; plain, v_args(inline) and v_args(tree) styles); the embedded result must equal the post-transform result for every accepted input, and Transformer, Transformer_NonRecursive, Transformer_InPlace and Transformer_InPlaceRecursive must return equal results with exactly one logged call per node and no callback seeing an untransformed child.',
+             note='__default__/__default_token__ untouched, no Discard, no meta (the statement\'s exceptions). Embedded in-place transformers are a separate class (finding F-C16-1).', ref='4 C16'),
  'C20': dict(level='exploration', technique='differential runtime monitor: forest transformers/visitors vs reference derivation enumeration; step budget + on_cycle observation on cyclic forests',
              text="For every accepted input the SPPF returned under ambiguity='forest' is walked by TreeForestTransformer (both modes), a counting ForestTransformer and a ForestVisitor; results are compared with the reference enumeration over the compiled rules (acyclic) or validated under a step budget with on_cycle observed (cyclic).",
              note='Trusts reference enumerator over Lark.rules (the forest names helper rules).', ref='4 C20'),
